@@ -34,9 +34,18 @@ use octo_squirrel::relay;
 use octo_squirrel::relay::End;
 use quinn::crypto::rustls::QuicClientConfig;
 use rustls_platform_verifier::ConfigVerifierExt;
+#[cfg(not(octo_squirrel_verif))]
 use tokio::net::TcpListener;
+#[cfg(octo_squirrel_verif)]
+use octo_squirrel::verif::net::TcpListener;
+#[cfg(not(octo_squirrel_verif))]
 use tokio::net::TcpStream;
+#[cfg(octo_squirrel_verif)]
+use octo_squirrel::verif::net::TcpStream;
+#[cfg(not(octo_squirrel_verif))]
 use tokio::net::UdpSocket;
+#[cfg(octo_squirrel_verif)]
+use octo_squirrel::verif::net::UdpSocket;
 use tokio::sync::mpsc;
 use tokio::sync::mpsc::Sender;
 use tokio::task::JoinHandle;
@@ -51,7 +60,10 @@ use tokio_rustls::rustls::pki_types::pem::PemObject;
 use tokio_util::codec::Decoder;
 use tokio_util::codec::Encoder;
 use tokio_util::codec::Framed;
+#[cfg(not(octo_squirrel_verif))]
 use tokio_util::udp::UdpFramed;
+#[cfg(octo_squirrel_verif)]
+use octo_squirrel::verif::net::UdpFramed;
 use tokio_websockets::ClientBuilder;
 
 use super::config::SslConfig;
